@@ -7,10 +7,13 @@
 //! The worker never decides anything: it executes the real code and records.
 
 mod galloc;
+mod dump;
 mod gen;
 mod rec;
 mod refint;
 mod run;
+mod shrink;
+mod tape;
 
 use std::io::{BufRead, Write};
 
@@ -73,6 +76,10 @@ fn worker() {
         match req["op"].as_str().unwrap_or("") {
             "run" => run::op_run(&req),
             "ref" => op_ref(&req),
+            "shrink" => shrink::op_shrink(&req),
+            "tape" => tape::op_tape(&req),
+            "dumpbc" => dump::op_dumpbc(&req),
+            "dumpir" => dump::op_dumpir(&req),
             "ping" => println!("{}", json!({"pong": 1, "debug": cfg!(debug_assertions)})),
             other => println!("{}", json!({"error": format!("unknown op {other}")})),
         }
